@@ -11,7 +11,34 @@ def _exc(e):
     return f"{type(e).__name__}: {e}"[:300]
 
 
-def check_image(ctx, fmt, img, view, built: disk.Built, rng: random.Random, *, full: bool, attrs: dict,
+class Hang(BaseException):
+    pass
+
+
+def _on_alarm(signum, frame):
+    raise Hang("operation did not return within the watchdog limit")
+
+
+def check_image(ctx, fmt, img, view, built, rng, **kw):
+    """Watchdog wrapper: a reader that does not return within `limit` seconds is a violation, not a hung check."""
+    import signal
+
+    limit = kw.pop("limit", 60)
+    old = signal.signal(signal.SIGALRM, _on_alarm)
+    signal.alarm(limit)
+    try:
+        return _check_image(ctx, fmt, img, view, built, rng, **kw)
+    except Hang as e:
+        a = dict(kw.get("attrs", {}))
+        a.update({"format": fmt, "fail": "hang"})
+        ctx.violation(a, {"format": fmt, "img": img, "profile": built.note, "error": str(e)})
+        return False
+    finally:
+        signal.alarm(0)
+        signal.signal(signal.SIGALRM, old)
+
+
+def _check_image(ctx, fmt, img, view, built: disk.Built, rng: random.Random, *, full: bool, attrs: dict,
                 cap: int = 64, sectors_api=None, fresh_every: int = 7, extra_requests=(), max_len: int = 8 << 20):
     """Replay all derived requests of one concretised image. Returns True when everything matched.
 
